@@ -129,7 +129,7 @@ Proof.
     assert (P2 : Permutation (xdrops l1 ++ t1 ++ rev lv1) (filter keep lvb)).
     { eapply Permutation_trans; [|exact Hp]. apply Permutation_app_head, Permutation_app_head.
       apply Permutation_sym, Permutation_rev. }
-    destruct (span_on c (sp_level sp)); injection HR as <- <-; (split; [exact Hr|]);
+    destruct (span_on c (sp_level sp)); apply pair_equal_spec in HR as [<- <-]; (split; [exact Hr|]);
       repeat rewrite ?own_effects_app, ?xdrops_app, ?wrap_own_effects, ?wrap_xdrops, ?own_effects_xdrop, ?xdrops_xdrop;
       tracing_nil; simpl; rewrite ?app_nil_r; split; auto.
     rewrite <- app_assoc. exact P2.
@@ -154,7 +154,10 @@ Proof.
     rewrite filter_true in H3. split; [assumption|]. split.
     + change (ECreated :: l0) with ([ECreated] ++ l0). rewrite own_effects_app, H2. reflexivity.
     + change (ECreated :: l0) with ([ECreated] ++ l0). rewrite xdrops_app. exact H3.
-  - set (keep := fun p => mem p (mentions f ++ top_mentions top)) in *.
+  - cbv zeta in HR.
+    change (fun p => negb (mem p (mentions f ++ top_mentions top)))
+      with (fun p => negb ((fun p => mem p (mentions f ++ top_mentions top)) p)) in HR.
+    set (keep := fun p => mem p (mentions f ++ top_mentions top)) in *.
     assert (C : covers keep (mentions f)).
     { intros p Hp. unfold keep. apply mem_In. apply in_or_app. now left. }
     destruct (run_future c args f top (filter keep (all_owned f))) as [l0 r0] eqn:E.
